@@ -112,19 +112,25 @@ def _lines(b):
     return sorted(re.sub(rb'Copyright \d+', b'Copyright Y', b).split(b'\n'))
 
 
+PROBE_VERSION = 2        # bump when the probes run at emission time change (cached statuses of older versions are redone)
+
+
 def recompile_probe(binary, dsl_path, d, first):
-    """the same compile once more, into directories that already hold files of the same names and sizes with other content
+    """the same compile once more, into directories that already hold files of the same names (same size, longer, shorter) with other content
     (what a previous compile of another revision leaves behind, newer than the DSL): the result must be the first run's files.
     Returns {lang: [files that differ]}; files are compared as line multisets (map-order nondeterminism is C13's subject)."""
     out2 = os.path.join(d, 'out2')
     shutil.rmtree(out2, ignore_errors=True)
+    k = 0
     for lang, fs in first['files'].items():
-        for rel, path in fs.items():
+        for rel, path in sorted(fs.items()):
             q = os.path.join(out2, lang, rel)
             os.makedirs(os.path.dirname(q), exist_ok=True)
             n = os.path.getsize(path)
+            k += 1
             with open(q, 'wb') as f:
-                f.write(b'#' * n)
+                # the older file is as long as the new one, longer (the new revision dropped something), or shorter
+                f.write(b'#' * (n, n + 41, max(0, n - 7))[k % 3])
     r2 = run_protoc(binary, dsl_path, out2)
     bad = {}
     for lang, fs in first['files'].items():
@@ -160,7 +166,7 @@ def emit_family(progs, tag):
         if os.path.exists(st):
             try:
                 s = json.load(open(st))
-                if s.get('dsl') == text:
+                if s.get('dsl') == text and s.get('probe') == PROBE_VERSION:
                     return p.name, s
             except Exception:
                 pass
@@ -170,6 +176,7 @@ def emit_family(progs, tag):
         open(dsl, 'w').write(text)
         r = run_protoc(binary, dsl, os.path.join(d, 'out'))
         r['dsl'] = text
+        r['probe'] = PROBE_VERSION
         r['dir'] = d
         r['stale'] = recompile_probe(binary, dsl, d, r) if r['rc'] == 0 else {}
         json.dump(r, open(st + '.tmp', 'w'))
